@@ -29,7 +29,9 @@ TInit ==
 Load(ev) ==
   /\ ev.e = "load"
   /\ mem' = [mem EXCEPT ![ev.buf] = ev.mem] /\ hb' = [hb EXCEPT ![ev.buf] = ev.base]
-  /\ UNCHANGED <<out, step>>
+  /\ step' = [op |-> "load", view |-> "", field |-> "", path |-> "", val |-> Zero64, id |-> "",
+              buf |-> ev.buf, base |-> ev.base, pre |-> ev.mem, post |-> ev.mem, ret |-> NoRet, rc |-> 0, out |-> out]
+  /\ UNCHANGED out
 
 Call(ev) ==
   /\ ev.e = "op"
